@@ -67,6 +67,16 @@ pub axiom fn utf8_injective(a: &str, b: &str)
     requires a.spec_bytes() == b.spec_bytes()
     ensures a@ == b@;
 
+// a String value is its text (the HashSet/HashMap key model for String relies on the same fact)
+pub broadcast axiom fn string_ext(a: String, b: String)
+    requires #[trigger] a@ == #[trigger] b@
+    ensures a == b;
+
+// the same over character sequences (String values)
+pub broadcast axiom fn utf8_encode_injective(a: Seq<char>, b: Seq<char>)
+    requires #[trigger] vstd::utf8::encode_utf8(a) == #[trigger] vstd::utf8::encode_utf8(b)
+    ensures a == b;
+
 pub broadcast axiom fn utf8_injective_b(a: &str, b: &str)
     requires a.spec_bytes() == b.spec_bytes()
     ensures #![trigger a.spec_bytes(), b.spec_bytes()] a@ == b@;
